@@ -259,8 +259,16 @@ Fixpoint topic_match (fuel : nat) (pat key : list string) : bool :=
            end
     end
   end.
+(* binding.go topicWords: the empty routing key has no words at all *)
+Definition topic_words (s : string) : list string := match s with EmptyString => [] | _ => words s end.
 Definition topic_matches (pat key : string) : bool :=
-  let p := words pat in let k := words key in topic_match (S (List.length p + List.length k) * 2) p k.
+  let p := topic_words pat in let k := topic_words key in topic_match (S (List.length p + List.length k) * 2) p k.
+
+(* binding.go parseTopicPattern: the wildcards are whole words only *)
+Fixpoint str_has_wild (s : string) : bool :=
+  match s with EmptyString => false | String a t => Ascii.eqb a "*"%char || Ascii.eqb a "#"%char || str_has_wild t end.
+Definition bad_word (w : string) : bool := Nat.ltb 1 (String.length w) && str_has_wild w.
+Definition bad_pattern (key : string) : bool := existsb bad_word (topic_words key).
 
 Fixpoint dedup_acc (seen : list string) (l : list string) : list string :=
   match l with
@@ -945,6 +953,7 @@ Definition handle_method (cfg : config) (fx : fixes) (s : state) (c h : N) (m : 
       | Some qu =>
         if locked qu c then refuse s (ChanErr ResourceLocked 50 20) else
         if bad_xmatch args then refuse s (ChanErr PreconditionFailed 50 20) else
+        if extype_eqb (e_type e) ExTopic && bad_pattern key then refuse s (ChanErr PreconditionFailed 50 20) else
         let e := append_binding e {| b_queue := q; b_key := key; b_args := args |} in
         ok (s <| exchanges := aset seqb ex e (exchanges s) |>) (if nowait then [] else out1 c h SQBindOk)
       end
@@ -958,6 +967,7 @@ Definition handle_method (cfg : config) (fx : fixes) (s : state) (c h : N) (m : 
       | Some qu =>
         if locked qu c then refuse s (ChanErr ResourceLocked 50 50) else
         if bad_xmatch args then refuse s (ChanErr PreconditionFailed 50 50) else
+        if extype_eqb (e_type e) ExTopic && bad_pattern key then refuse s (ChanErr PreconditionFailed 50 50) else
         let e := remove_binding e {| b_queue := q; b_key := key; b_args := args |} in
         ok (s <| exchanges := aset seqb ex e (exchanges s) |>) (out1 c h SQUnbindOk)
       end
